@@ -175,7 +175,9 @@ def check_qubit_lists(ctx: Ctx):
     t = norm(r[0].value).replace(" ", "") if r else ""
     v0 = q.strip_wrappers(r[0].value) if len(r) == 1 else None
     tot = q.is_total_len(v0.args[0], "self.args") if isinstance(v0, ast.Call) and isinstance(v0.func, ast.Name) and v0.func.id == "range" and len(v0.args) == 1 else None
-    if tot is None:
+    if tot is None and "qubit_map" in t:
+        ctx.fail("MP-inputs-first", iq, "input qubits = 0 .. (total argument bits - 1)", f"input_qubits is `{t[:100]}`: it looks the argument names up in the circuit's name -> qubit map, but the compiler re-points a name whenever the program assigns to it (`a = a and b` moves `a` to the qubit holding the new value): the inputs are the first sum(len(arg)) qubits, in allocation order, whatever the names point at afterwards", iq.node)
+    elif tot is None:
         ctx.undecided(iq.short, f"input_qubits is `{t[:80]}`: not range(<a sum over self.args>)")
     else:
         ctx.check(tot, "MP-inputs-first", iq, "input qubits = 0 .. (total argument bits - 1)", t[:60], f"input_qubits is `{t}`: the inputs are the first sum(len(arg)) qubits, one per argument bit", iq.node)
